@@ -43,6 +43,7 @@ def run(ctx):
     axes(ctx)
     gradient(ctx)
     dirdiff(ctx)
+    argview(ctx)
     from . import history
     history.run_cache_scenarios(rep, ctx.repo, 'Jacobian', 2)
     rep.rule('R-JAC-REENTRY', 'a Jacobian call that follows a call aborted by an exception in f (same or new object) equals a fresh one: no work array survives a call', 4)
@@ -52,6 +53,51 @@ def run(ctx):
         except AnalysisError as exc:
             rep.undecided('R-JAC-REENTRY', 'finite_difference.JacobianDifferenceFunctions.increments', exc, sc.name)
     rep.notes['trusted_base'] = ['python ast', 'ndverif abstract interpreter, stencil and data-abstract domains']
+
+
+def argview(ctx):
+    """A user function may return its argument itself or a view of it (x -> x, x -> x[::-1], a selection of coordinates - all
+    affine maps of the property): the difference quotients must not change because of that.  Each Jacobian difference function
+    is run in exact algebra with the identity map returning its very argument and with the identity map returning a copy."""
+    rep, facts = ctx.rep, ctx.facts
+    rep.rule('R-ARGVIEW', 'every Jacobian difference function gives, for the user function that returns its argument object itself, '
+             'the value it gives for the one that returns a copy (an array handed to f is not written to while a result of f is alive)', 4)
+    fd = facts.repo.module('finite_difference')
+    seen = {}
+    for method in ('central', 'forward', 'backward', 'complex'):
+        for n_, order in ((1, 2), (1, 4)):
+            try:
+                cfg = facts.rule_config('LogJacobianRule', method, n_, order)
+            except AnalysisError:
+                continue
+            if cfg.get('diff') is not None:
+                seen.setdefault(cfg['diff_name'], (cfg['diff'], method))
+    for name, (fn, method) in sorted(seen.items()):
+        label = '%s (%s)' % (name, method)
+        where = fd.where(fn.node) if hasattr(fn, 'node') else fd.relpath
+        try:
+            results = []
+            for copying in (False, True):
+                xs = Arr((3,), [Poly.sym('x%d' % k) for k in range(3)])
+                hs = Arr((3,), [Poly.sym('h%d' % k) for k in range(3)])
+                ndarr.POSITIVE_ATOMS.update({'h0', 'h1', 'h2'})
+                f = (lambda a: a.copy()) if copying else (lambda a: a)
+                r = fn(f, xs.copy(), xs, hs)
+                r = r if isinstance(r, Arr) else ndarr.asarr(r)
+                results.append([repr(v) for v in r.items()])
+        except AnalysisError as exc:
+            rep.undecided('R-ARGVIEW', name, exc, label)
+            continue
+        except InterpRaise as exc:
+            rep.violation('R-ARGVIEW', name, where, {'raises': exc.exc_name, 'message': exc.msg[:120]},
+                          'the differences of the identity map', label, key='argview raises')
+            continue
+        finally:
+            for a_ in ('h0', 'h1', 'h2'):
+                ndarr.POSITIVE_ATOMS.discard(a_)
+        rep.check(results[0] == results[1], 'R-ARGVIEW', name, where,
+                  {'f_returns_its_argument': results[0][:9], 'f_returns_a_copy': results[1][:9]},
+                  'the same differences', label, key='argview')
 
 
 def out_cases(tier):
